@@ -256,6 +256,9 @@ class LayerRuleMatcher(RuleMatcher):
                 )
 
             else:
-                result = result + module_name_conversion_mapping[module.identifier]
+                # a layer defined via regex that the rule does not mention has not been converted
+                result = result + module_name_conversion_mapping.get(
+                    module.identifier, []
+                )
 
         return result
